@@ -233,6 +233,39 @@ class Ev:
                 return self.q(v.kids[0])
             if nm == "map" and len(v.kids) == 2 and seqmodel.identity_mapper(v.kids[1]):
                 return self.q(v.kids[0])
+            if nm == "flat_map" and len(v.kids) == 2:
+                # `.flat_map(|part| [part, SEP])`: every element followed / preceded by constants
+                src = self.q(v.kids[0])
+                clo = peel(v.kids[1])
+                if src is None or not (clo.kind == "agg" and clo.d["agg"].get("kind") == "closure" and clo.fn is not None):
+                    return None
+                cf = clo.fn.facts.fns.get(clo.d["agg"].get("def"))
+                if cf is None:
+                    return None
+                from val import vals as _vals
+                rv = peel(_vals(cf).return_value())
+                if not (rv.kind == "agg" and rv.d["agg"].get("kind") == "array"):
+                    return None
+                shape = []
+                for k in rv.kids:
+                    kp = peel(k)
+                    cv = const_value(kp)
+                    if isinstance(cv, str):
+                        shape.append(("lit", cv))
+                        continue
+                    g = 0
+                    while kp.kind in ("field", "variant", "index", "alias") and kp.kids and g < 4:
+                        kp = peel(kp.kids[0])
+                        g += 1
+                    if kp.kind == "param" and kp.d["idx"] == 2:
+                        shape.append(("item", None))
+                    else:
+                        return None
+                out = []
+                for x in src:
+                    for (k_, c_) in shape:
+                        out.append(x if k_ == "item" else c_)
+                return out
             if nm == "once" and v.kids:
                 a = self.s(v.kids[0])
                 return None if a is None else [a]
